@@ -258,26 +258,13 @@ def run(chk, prog):
     hs = usm.hinfo_stores
     chk.check(len(hs) >= 2, "R4", A.loc(usm.fn, {"line": usm.fn["line"]}),
               "_hinfo is written on the in-range and on the out-of-range path (%d stores)" % len(hs), "updateSM:hinfo-paths")
-    ka = prog.fn("vfps::KickMap::apply", nparams=0)
-    chk.used(ka)
-    s = I.scan(ka)
-    dl = [a for a in s.accesses if a.kind == "load" and a.base == "data_in"]
-    for a in dl:
-        site = A.loc(ka, {"line": a.line})
-        ok = False
-        for g, pol in a.guards:
-            gn = A.strip(g) if isinstance(g, dict) and g.get("k") not in ("SwitchCase", "Catch") else None
-            if gn and gn["k"] == "BinaryOperator" and gn["op"] == "<" and pol:
-                l = A.declref(gn["c"][0])
-                if l is not None and "unsigned" in (gn["c"][0].get("ctype") or ""):
-                    # the compared variable must occur in the load index
-                    sym = s.tr.env.get(l["decl"])
-                    if sym is not None and a.idx is not None:
-                        hx = [t for t in sym.free_symbols if str(t).endswith(".index")]
-                        if hx and all(a.idx[0].has(t) for t in hx):
-                            ok = True
-        chk.check(ok, "R4", site, "grid read data_in[%s] happens only under an unsigned `source < mesh size` test" % (a.idx[0] if a.idx else "?"),
-                  "KickMap::apply:unguarded-read")
+    from . import kickmodel as K
+    kap = K.KickApply(prog)
+    chk.used(kap.fn)
+    for axis, b in sorted(kap.branches.items()):
+        ok, why = K.source_guard(kap, b)
+        chk.check(ok, "R4", A.loc(kap.fn, {"line": b.din[0].line}),
+                  "%s-kick: cells outside the grid contribute nothing (zeros flow in): %s" % (axis, why), "KickMap::apply:%s:source-guard" % axis)
         r4 += 1
     chk.floor("R4-sites", r4, 5)
     chk.notes.append("C02: Lagrange/partition-of-unity identities for orders 1-4 over nodes read from updateSM/genHInfo; "
